@@ -177,6 +177,34 @@ pub fn run(tier: Tier) -> Run {
                 }
             }
         }
+        // from_str takes any &str: every declared name (and a near miss) handed over as a slice that starts at each of the
+        // eight residues of an 8-byte boundary gives what the freshly allocated string gives
+        {
+            let mut n = 0u64;
+            for e in &enum_ops {
+                let Some(fs) = e.from_str else { continue };
+                let names: Vec<String> = g.enums[e.name].variants.iter().map(|v| v.0.clone()).collect();
+                for name in names.iter().flat_map(|x| [x.clone(), format!("{}_", x), format!("_{}", x)]) {
+                    let want = fs(&name);
+                    let mut store = vec![b'#'; name.len() + 24];
+                    let base = (8 - store.as_ptr() as usize % 8) % 8;
+                    for off in 0..8usize {
+                        let st = base + off;
+                        store[st..st + name.len()].copy_from_slice(name.as_bytes());
+                        let view = std::str::from_utf8(&store[st..st + name.len()]).unwrap();
+                        n += 1;
+                        if fs(view) != want {
+                            run.add(viol(format!("C08:{}:from_str:alignment", e.name), format!("{}::from_str({:?}) gives {:?} for a freshly allocated string and {:?} for the same text {} byte(s) behind an 8-byte boundary", e.name, name, want, fs(view), off), json!({"kind": "c08-from-str-aligned", "type": e.name, "name": name, "offset": off})));
+                            break;
+                        }
+                        for b in store[st..st + name.len()].iter_mut() {
+                            *b = b'#';
+                        }
+                    }
+                }
+            }
+            run.outcome("from_str_at_every_alignment", n);
+        }
         run.outcome("cross_type_conversion_pairs", cross);
         // the same inside one type: from_u32(a) and then from_u32(b) for every ordered pair of (declared value | declared
         // value +- 1) of that type (at most 400 x 400 per type), and after 300 repetitions of from_u32(a)
